@@ -8,6 +8,7 @@ import Mathlib.Order.Basic
   Helper lemmas for `Proofs/C05.lean`: the outcome monad, the raw/checked accesses, the sentinel
   scans of `Altrios/FreePath.lean`.
 -/
+set_option linter.unusedSectionVars false
 namespace Altrios.Proofs.PlanL
 open Altrios Altrios.FreePath
 
@@ -385,5 +386,425 @@ theorem findTrainIntersect_safe (split sentinel : Nat) (t : LinkOpt) (path block
       rw [if_neg (by omega), if_pos h2]; exact safe_assert
   · unfold findTrainIntersect
     rw [if_pos (by omega)]; exact safe_ok _
+
+/-! ### `add_blocking_trains` -/
+
+/-- one dedup search: raw scan from `b` over `tb ++ ta :: news` (the sentinel slot `tb.length` holds the
+    searched value): stops inside `[b, tb.length]`, and stops ON the sentinel iff `ta` is not in `tb[b..]` -/
+theorem scanEq_sentinel (tb news : List Nat) (ta b : Nat) (hb : b ≤ tb.length) :
+    ∃ j, scanEq (tb ++ ta :: news) ta ((tb ++ ta :: news).length + 1) b = .ok j ∧
+      (j = tb.length ↔ ta ∉ tb.drop b) := by
+  have hlen : tb.length < (tb ++ ta :: news).length := by simp
+  have hstop : (tb ++ ta :: news)[tb.length] = ta := by
+    rw [List.getElem_append_right (le_refl _)]; simp
+  obtain ⟨j, hj, e, h1, h2, h3, h4⟩ :=
+    scanP_spec (fun x : Nat => decide (x ≠ ta)) (tb ++ ta :: news) ((tb ++ ta :: news).length + 1) b
+      tb.length hlen hb (by simp [hstop]) (by omega)
+  refine ⟨j, by rw [scanEq_eq, e], ?_⟩
+  constructor
+  · intro hjn hmem
+    obtain ⟨k, hk, hkx⟩ := List.mem_drop_iff_getElem.mp hmem
+    have hk' : b + k < (tb ++ ta :: news).length := by omega
+    have := h4 (b + k) hk' (by omega) (by omega)
+    rw [List.getElem_append_left (by omega : b + k < tb.length)] at this
+    simp [hkx] at this
+  · intro hnot
+    by_contra hne
+    have hjlt : j < tb.length := by omega
+    have hx : (tb ++ ta :: news)[j] = ta := by simpa using h3
+    rw [List.getElem_append_left hjlt] at hx
+    apply hnot
+    apply List.mem_drop_iff_getElem.mpr
+    refine ⟨j - b, by omega, ?_⟩
+    have : b + (j - b) = j := by omega
+    simp only [this]; exact hx
+
+theorem getD_some (tb : List Nat) (ia : Nat) (h : ia < tb.length) : tb[ia]? = some (tb.getD ia 0) := by
+  simp [List.getD, List.getElem?_eq_getElem h]
+
+/-- the new trains collected by the loop: those read through the add view that are not in the base view -/
+def addNews (tb bs : List Nat) : List Nat → List Nat → List Nat
+  | [], news => news
+  | ia :: rest, news => addNews tb bs rest (if tb.getD ia 0 ∈ bs then news else news ++ [tb.getD ia 0])
+
+/-- the value left in the sentinel slot -/
+def lastS (tb : List Nat) : List Nat → Nat → Nat
+  | [], s => s
+  | ia :: rest, _ => lastS tb rest (tb.getD ia 0)
+
+theorem mem_addNews (tb bs : List Nat) (x : Nat) : ∀ (ias news : List Nat),
+    x ∈ addNews tb bs ias news ↔ x ∈ news ∨ (x ∉ bs ∧ ∃ ia ∈ ias, tb.getD ia 0 = x) := by
+  intro ias
+  induction ias with
+  | nil => intro news; simp [addNews]
+  | cons ia rest ih =>
+    intro news
+    unfold addNews
+    rw [ih]
+    by_cases hm : tb.getD ia 0 ∈ bs
+    · rw [if_pos hm]
+      constructor
+      · rintro (h | ⟨h1, ib, h2, h3⟩)
+        · left; exact h
+        · right; exact ⟨h1, ib, by simp [h2], h3⟩
+      · rintro (h | ⟨h1, ib, h2, h3⟩)
+        · left; exact h
+        · rcases List.mem_cons.mp h2 with rfl | h2
+          · rw [h3] at hm; exact absurd hm h1
+          · right; exact ⟨h1, ib, h2, h3⟩
+    · rw [if_neg hm]
+      constructor
+      · rintro (h | ⟨h1, ib, h2, h3⟩)
+        · rcases List.mem_append.mp h with h | h
+          · left; exact h
+          · right
+            have : x = tb.getD ia 0 := by simpa using h
+            subst this
+            exact ⟨hm, ia, by simp, rfl⟩
+        · right; exact ⟨h1, ib, by simp [h2], h3⟩
+      · rintro (h | ⟨h1, ib, h2, h3⟩)
+        · left; exact List.mem_append.mpr (Or.inl h)
+        · rcases List.mem_cons.mp h2 with rfl | h2
+          · left; rw [h3]; simp
+          · right; exact ⟨h1, ib, h2, h3⟩
+
+/-- the `for idx_add in …` loop when every `idx_add` lies in the original buffer and the base view ends at
+    the buffer end: exact result -/
+theorem addLoop_eq (tb : List Nat) (base : View) (hb : base.1 ≤ base.2) (hl : tb.length = base.2) :
+    ∀ (ias : List Nat) (s : Nat) (news : List Nat), (∀ ia ∈ ias, ia < tb.length) →
+      addLoop base ias (tb ++ s :: news) =
+        .ok (tb ++ lastS tb ias s :: addNews tb (tb.drop base.1) ias news) := by
+  intro ias
+  induction ias with
+  | nil => intro s news _; rfl
+  | cons ia rest ih =>
+    intro s news hia
+    have hi : ia < tb.length := hia ia (by simp)
+    have hget : tb.getD ia 0 = tb[ia] := by simp [List.getD, List.getElem?_eq_getElem hi]
+    unfold addLoop
+    have h1 : chkGet (tb ++ s :: news) ia = .ok tb[ia] := by
+      rw [chkGet_eq_ok, List.getElem?_append_left hi, List.getElem?_eq_getElem hi]
+    have h2 : rawSet (tb ++ s :: news) base.2 tb[ia] = .ok (tb ++ tb[ia] :: news) := by
+      rw [rawSet_of_lt _ _ _ (by simp; omega), List.set_append, if_neg (by omega)]
+      have : base.2 - tb.length = 0 := by omega
+      rw [this]; rfl
+    rw [h1, bind_ok, h2, bind_ok]
+    obtain ⟨j, e, hj⟩ := scanEq_sentinel tb news tb[ia] base.1 (by omega)
+    rw [e, bind_ok]
+    unfold addNews lastS
+    rw [hget]
+    by_cases hm : tb[ia] ∈ tb.drop base.1
+    · have hjn : j ≠ base.2 := by
+        intro h; exact (hj.mp (by omega)) hm
+      rw [if_neg hjn, if_pos hm]
+      exact ih tb[ia] news (fun ib hib => hia ib (by simp [hib]))
+    · have hjn : j = base.2 := by rw [← hl]; exact hj.mpr hm
+      rw [if_pos hjn, if_neg hm]
+      have : tb ++ tb[ia] :: news ++ [tb[ia]] = tb ++ tb[ia] :: (news ++ [tb[ia]]) := by simp
+      rw [this]
+      exact ih tb[ia] (news ++ [tb[ia]]) (fun ib hib => hia ib (by simp [hib]))
+
+/-- the loop on ANY index list and ANY buffer with the sentinel slot allocated: no raw access out of range,
+    terminates -/
+theorem addLoop_safe (base : View) (hb : base.1 ≤ base.2) :
+    ∀ (ias cur : List Nat), base.2 < cur.length →
+      Safe (addLoop base ias cur) ∧ ∀ out, addLoop base ias cur = .ok out → cur.length ≤ out.length := by
+  intro ias
+  induction ias with
+  | nil => intro cur _; exact ⟨safe_ok _, fun out h => by cases h; exact le_refl _⟩
+  | cons ia rest ih =>
+    intro cur hc
+    unfold addLoop
+    cases hget : chkGet cur ia with
+    | fault e =>
+      have := chkGet_safe cur ia
+      rw [hget] at this
+      rw [bind_fault]
+      refine ⟨?_, fun out h => by cases h⟩
+      exact ⟨fun h => this.1 (by cases h; rfl), fun h => this.2 (by cases h; rfl)⟩
+    | ok ta =>
+      rw [bind_ok, rawSet_of_lt cur base.2 ta hc, bind_ok]
+      have hl : (cur.set base.2 ta).length = cur.length := List.length_set
+      have hstop : (cur.set base.2 ta)[base.2]'(by omega) = ta := List.getElem_set_self _
+      obtain ⟨j, hj, e, _⟩ :=
+        scanP_spec (fun x : Nat => decide (x ≠ ta)) (cur.set base.2 ta) ((cur.set base.2 ta).length + 1)
+          base.1 base.2 (by omega) hb (by simp [hstop]) (by omega)
+      rw [scanEq_eq, e, bind_ok]
+      by_cases hjb : j = base.2
+      · rw [if_pos hjb]
+        obtain ⟨h1, h2⟩ := ih (cur.set base.2 ta ++ [ta]) (by simp; omega)
+        exact ⟨h1, fun out h => by have := h2 out h; simp at this; omega⟩
+      · rw [if_neg hjb]
+        obtain ⟨h1, h2⟩ := ih (cur.set base.2 ta) (by omega)
+        exact ⟨h1, fun out h => by have := h2 out h; omega⟩
+
+/-- for ALL arguments: `add_blocking_trains` never touches memory out of range and terminates -/
+theorem addBlockingTrains_safe (tb : List Nat) (base add : View) :
+    Safe (addBlockingTrains tb base add) := by
+  unfold addBlockingTrains
+  by_cases h1 : base.1 ≤ base.2
+  · rw [if_neg (by omega)]
+    by_cases h2 : tb.length = base.2
+    · rw [if_neg (by omega)]
+      by_cases h3 : add.2 < add.1
+      · rw [if_pos h3]; exact safe_overflow
+      · rw [if_neg h3]
+        obtain ⟨hs, hlen⟩ := addLoop_safe base h1 (List.range' add.1 (add.2 - add.1)) (tb ++ [0])
+          (by simp; omega)
+        apply safe_bind _ _ hs
+        intro out hout
+        have hol := hlen out hout
+        cases hg : out.getLast? with
+        | none => exact safe_assert
+        | some save => exact safe_ok _
+    · rw [if_pos (by omega)]; exact safe_assert
+  · rw [if_pos h1]; exact safe_assert
+
+/-- `add_blocking_trains` when its two `assert!`s pass and the add view lies in the buffer: the buffer keeps
+    its old content as a prefix (the sentinel slot is gone), the appended part is exactly the set of trains
+    of the add view that are not in the base view, the returned view is `[base.begin, len)`. -/
+theorem addBlockingTrains_spec (tb : List Nat) (base add : View)
+    (h1 : base.1 ≤ base.2) (h2 : tb.length = base.2) (h3 : add.1 ≤ add.2) (h4 : add.2 ≤ tb.length) :
+    ∃ out, addBlockingTrains tb base add = .ok (out, (base.1, out.length)) ∧
+      out.take tb.length = tb ∧
+      ∀ x, x ∈ out.drop tb.length ↔
+        (x ∉ tb.drop base.1 ∧ ∃ ia, add.1 ≤ ia ∧ ia < add.2 ∧ tb[ia]? = some x) := by
+  unfold addBlockingTrains
+  rw [if_neg (by omega), if_neg (by omega), if_neg (by omega)]
+  have hias : ∀ ia ∈ List.range' add.1 (add.2 - add.1), ia < tb.length := by
+    intro ia hia
+    obtain ⟨i, hi, rfl⟩ := List.mem_range'.mp hia
+    omega
+  have hloop := addLoop_eq tb base h1 h2 (List.range' add.1 (add.2 - add.1)) 0 [] hias
+  have happ : tb ++ [0] = tb ++ 0 :: [] := rfl
+  rw [happ, hloop, bind_ok]
+  generalize hN : addNews tb (tb.drop base.1) (List.range' add.1 (add.2 - add.1)) [] = N
+  generalize lastS tb (List.range' add.1 (add.2 - add.1)) 0 = sl
+  have hmemN : ∀ x, x ∈ N ↔ (x ∉ tb.drop base.1 ∧ ∃ ia, add.1 ≤ ia ∧ ia < add.2 ∧ tb[ia]? = some x) := by
+    intro x
+    rw [← hN, mem_addNews]
+    simp only [List.not_mem_nil, false_or]
+    constructor
+    · rintro ⟨hx, ia, hia, hg⟩
+      refine ⟨hx, ia, ?_⟩
+      obtain ⟨i, hi, rfl⟩ := List.mem_range'.mp hia
+      have hlt : add.1 + 1 * i < tb.length := by omega
+      refine ⟨by omega, by omega, ?_⟩
+      rw [← hg]; exact getD_some tb _ hlt
+    · rintro ⟨hx, ia, ha1, ha2, hg⟩
+      refine ⟨hx, ia, ?_, ?_⟩
+      · apply List.mem_range'.mpr
+        exact ⟨ia - add.1, by omega, by omega⟩
+      · simp [List.getD, hg]
+  rcases List.eq_nil_or_concat N with hNn | ⟨N', z, hNc⟩
+  · subst hNn
+    have hg : (tb ++ [sl]).getLast? = some sl := List.getLast?_concat
+    rw [hg]
+    simp only [List.dropLast_concat]
+    rw [if_neg (by omega)]
+    refine ⟨tb, rfl, by simp, ?_⟩
+    intro x
+    rw [← hmemN]; simp
+  · rw [List.concat_eq_append] at hNc
+    subst hNc
+    have e1 : tb ++ sl :: (N' ++ [z]) = (tb ++ sl :: N') ++ [z] := by simp
+    rw [e1, List.getLast?_concat]
+    simp only [List.dropLast_concat]
+    rw [if_pos (by simp; omega)]
+    have e2 : (tb ++ sl :: N').set base.2 z = tb ++ z :: N' := by
+      rw [List.set_append, if_neg (by omega)]
+      have : base.2 - tb.length = 0 := by omega
+      rw [this]; rfl
+    rw [e2]
+    refine ⟨tb ++ z :: N', rfl, by simp, ?_⟩
+    intro x
+    rw [← hmemN, List.drop_left' rfl]
+    simp only [List.mem_cons, List.mem_append]
+    tauto
+
+/-! ### `add_all_blocking_trains`, `concat_train_idx_views` -/
+
+theorem addAllBlockingTrains_safe (tb : List Nat) (large small : View) :
+    Safe (addAllBlockingTrains tb large small) := by
+  unfold addAllBlockingTrains
+  by_cases h1 : large.2 < large.1
+  · rw [if_pos h1]; exact safe_overflow
+  · rw [if_neg h1]
+    by_cases h2 : small.2 < small.1
+    · rw [if_pos h2]; exact safe_overflow
+    · rw [if_neg h2]
+      by_cases h3 : tb.length < large.2
+      · rw [if_pos h3]; exact safe_index
+      · rw [if_neg h3]; exact addBlockingTrains_safe _ _ _
+
+theorem concatViews_safe (tb : List Nat) (view add : View) : Safe (concatViews tb view add) := by
+  unfold concatViews
+  split_ifs
+  · exact safe_ok _
+  · exact safe_ok _
+  · exact addBlockingTrains_safe _ _ _
+  · exact addBlockingTrains_safe _ _ _
+  · exact safe_overflow
+  · exact safe_overflow
+  · exact addAllBlockingTrains_safe _ _ _
+  · exact addAllBlockingTrains_safe _ _ _
+
+/-! ### `LinkOptType::new` -/
+
+/-- every link index stored in the value is at most `B`; `Check` is not an intermediate value -/
+def LinkOpt.bounded (B : Nat) : LinkOpt → Prop
+  | .none => True
+  | .single l => l ≤ B
+  | .range a b => a ≤ b ∧ b ≤ B
+  | .check => False
+
+theorem linkOptFold_bounded (onPath : List Nat) (B : Nat) :
+    ∀ (bl : List Nat) (acc : LinkOpt), (∀ l ∈ bl, l ≤ B) → LinkOpt.bounded B acc →
+      ∃ t, linkOptFold onPath bl acc = .ok t ∧ LinkOpt.bounded B t := by
+  intro bl
+  induction bl with
+  | nil => intro acc _ h; exact ⟨acc, rfl, h⟩
+  | cons l ls ih =>
+    intro acc hbl hacc
+    have hl : l ≤ B := hbl l (by simp)
+    have hls : ∀ x ∈ ls, x ≤ B := fun x hx => hbl x (by simp [hx])
+    unfold linkOptFold
+    by_cases hc : onPath.contains l = true
+    · rw [if_pos hc]
+      cases acc with
+      | none => exact ih _ hls hl
+      | single p =>
+        apply ih _ hls
+        have hp : p ≤ B := hacc
+        exact ⟨by omega, by omega⟩
+      | range a b =>
+        apply ih _ hls
+        obtain ⟨h1, h2⟩ := hacc
+        exact ⟨by omega, by omega⟩
+      | check => exact absurd hacc id
+    · rw [if_neg hc]; exact ih acc hls hacc
+
+/-- `LinkOptType::new` never fails, and its `Single`/`Range` parameters are bounded by the link indices it
+    was given: with `u32` link indices `link_idx_min < 2^32` — the precondition of the `Range` search. -/
+theorem linkOptNew_bounded (blocking onPath : List Nat) (B : Nat) (hbl : ∀ l ∈ blocking, l ≤ B) :
+    ∃ t, linkOptNew blocking onPath = .ok t ∧
+      (∀ mn df, t = .range mn df → mn ≤ B ∧ df ≤ 16) ∧ (∀ c, t = .single c → c ≤ B) := by
+  obtain ⟨t, e, hb⟩ := linkOptFold_bounded onPath B blocking .none hbl trivial
+  unfold linkOptNew
+  rw [e, bind_ok]
+  cases t with
+  | none => exact ⟨.none, rfl, fun _ _ h => (by cases h), fun _ h => (by cases h)⟩
+  | single p => exact ⟨.single p, rfl, fun _ _ h => (by cases h), fun c h => (by cases h; exact hb)⟩
+  | check => exact absurd hb id
+  | range a b =>
+    obtain ⟨h1, h2⟩ := hb
+    simp only []
+    rw [if_neg (by omega)]
+    by_cases hd : b - a ≤ 16
+    · rw [if_pos hd]
+      exact ⟨.range a (b - a), rfl, fun mn df h => (by cases h; exact ⟨by omega, hd⟩), fun _ h => (by cases h)⟩
+    · rw [if_neg hd]
+      exact ⟨.check, rfl, fun _ _ h => (by cases h), fun _ h => (by cases h)⟩
+
+/-! ### queue bookkeeping -/
+
+section queue
+variable {α : Type} [LT α] [DecidableLT α]
+
+theorem popMin_eq_none (q : List (α × Nat)) : popMin q = none ↔ q = [] := by
+  cases q with
+  | nil => simp [popMin]
+  | cons x xs =>
+    simp only [popMin, reduceCtorEq, iff_false]
+    cases popMin xs with
+    | none => simp
+    | some mr => obtain ⟨m, r⟩ := mr; simp only []; split_ifs <;> simp
+
+/-- `pop` removes exactly one element -/
+theorem popMin_perm : ∀ (q : List (α × Nat)) (m : α × Nat) (r : List (α × Nat)),
+    popMin q = some (m, r) → q.Perm (m :: r) := by
+  intro q
+  induction q with
+  | nil => intro m r h; simp [popMin] at h
+  | cons x xs ih =>
+    intro m r h
+    unfold popMin at h
+    cases hp : popMin xs with
+    | none =>
+      rw [hp] at h
+      have hx : xs = [] := (popMin_eq_none xs).mp hp
+      simp only [Option.some.injEq, Prod.mk.injEq] at h
+      obtain ⟨rfl, rfl⟩ := h
+      rw [hx]
+    | some mr =>
+      obtain ⟨m', r'⟩ := mr
+      rw [hp] at h
+      have hperm := ih m' r' hp
+      simp only [] at h
+      split_ifs at h with hk
+      · simp only [Option.some.injEq, Prod.mk.injEq] at h
+        obtain ⟨rfl, rfl⟩ := h
+        exact (List.Perm.cons x hperm).trans (List.Perm.swap _ _ _)
+      · simp only [Option.some.injEq, Prod.mk.injEq] at h
+        obtain ⟨rfl, rfl⟩ := h
+        exact List.Perm.refl _
+
+/-- the train indices held by the three containers -/
+def ids (s : QSt α) : List Nat := s.queue.map (·.2) ++ (s.parked.map (·.2) ++ s.finished)
+
+/-- one iteration moves the popped train between containers and nothing else: the multiset of train
+    indices over queue + parked + finished is unchanged -/
+theorem qStep_ids (s s' : QSt α) (a : Ans α) (i : Nat) (h : qStep s a = some (i, s')) :
+    (ids s').Perm (ids s) ∧ i ∈ s.queue.map (·.2) := by
+  unfold qStep at h
+  cases hp : popMin s.queue with
+  | none => rw [hp] at h; simp at h
+  | some mr =>
+    obtain ⟨⟨t, j⟩, q⟩ := mr
+    rw [hp] at h
+    have hperm : (s.queue.map (·.2)).Perm (j :: q.map (·.2)) := by
+      have := (popMin_perm s.queue (t, j) q hp).map (·.2)
+      simpa using this
+    have hmem : j ∈ s.queue.map (·.2) := hperm.symm.subset (by simp)
+    simp only [] at h
+    have hcount := fun x => List.perm_iff_count.mp hperm x
+    split_ifs at h with hb hf
+    all_goals
+      simp only [Option.some.injEq, Prod.mk.injEq] at h
+      obtain ⟨rfl, rfl⟩ := h
+      refine ⟨?_, hmem⟩
+      apply List.perm_iff_count.mpr
+      intro x
+      have hc := hcount x
+      unfold ids
+      simp only [List.map_append, List.map_cons, List.map_nil, List.count_append, List.count_cons,
+        List.count_nil] at hc ⊢
+      split_ifs at hc ⊢ <;> omega
+
+theorem qRun_ids : ∀ (as : List (Ans α)) (s : QSt α), (ids (qRun s as).2).Perm (ids s) := by
+  intro as
+  induction as with
+  | nil => intro s; exact List.Perm.refl _
+  | cons a as ih =>
+    intro s
+    unfold qRun
+    cases hq : qStep s a with
+    | none => exact List.Perm.refl _
+    | some is' =>
+      obtain ⟨i, s'⟩ := is'
+      simp only []
+      exact (ih s').trans (qStep_ids s s' a i hq).1
+
+theorem map_snd_zipIdxFrom {τ} : ∀ (l : List τ) (k : Nat), (zipIdxFrom l k).map (·.2) = List.range' k l.length := by
+  intro l
+  induction l with
+  | nil => intro k; rfl
+  | cons x xs ih => intro k; simp [zipIdxFrom, ih, List.range'_succ]
+
+theorem ids_qInit (deps : List α) : ids (qInit deps) = List.range' 1 deps.length := by
+  unfold ids qInit
+  simp [map_snd_zipIdxFrom]
+
+end queue
 
 end Altrios.Proofs.PlanL
